@@ -31,7 +31,13 @@ theorem C04c_idle (H : Bytes → Bytes) (inp : RunIn)
     (run H inp).result = .ok () ∧ (run H inp).fs = inp.fs ∧
     (∀ o ∈ (run H inp).ops, o.kind.mutating = false) ∧
     (∀ c ∈ (run H inp).counters.getLast?, c.success = (run H inp).work.length ∧ c.failed = 0 ∧ c.fault = 0) := by
-  sorry
+  have hok := RunI.validateAll_ok ⟨inp.fs, [], inp.faults⟩ (inp.scan ++ [inp.exportDir]) hnofault hargs
+  have e1 := RunI.validateAll_roext ⟨inp.fs, [], inp.faults⟩ (inp.scan ++ [inp.exportDir])
+  rcases hv : validateAll ⟨inp.fs, [], inp.faults⟩ (inp.scan ++ [inp.exportDir]) with ⟨st1, ok⟩
+  rw [hv] at hok e1
+  simp only at hok e1
+  subst hok
+  exact RunI.idle_core H inp hwf hne hnofault st1 st1 hv (by rw [hres]; rfl) e1 hwork (fun w hw => hall w hw)
 
 /-- the same with the flag on: the pre-flight finds nothing to extend and nothing over-long among the images the
     pieces use, provided no other export image of the loaded torrents is shorter or longer than declared -/
@@ -45,6 +51,24 @@ theorem C04c_idle_resize (H : Bytes → Bytes) (inp : RunIn)
     (hall : ∀ w ∈ (run H inp).work, StrictVer H inp.fs w) :
     (run H inp).result = .ok () ∧ (run H inp).fs = inp.fs ∧
     (∀ o ∈ (run H inp).ops, o.kind.mutating = false) := by
-  sorry
+  have hok := RunI.validateAll_ok ⟨inp.fs, [], inp.faults⟩ (inp.scan ++ [inp.exportDir]) hnofault hargs
+  have e1 := RunI.validateAll_roext ⟨inp.fs, [], inp.faults⟩ (inp.scan ++ [inp.exportDir])
+  rcases hv : validateAll ⟨inp.fs, [], inp.faults⟩ (inp.scan ++ [inp.exportDir]) with ⟨st1, ok⟩
+  rw [hv] at hok e1
+  simp only at hok e1
+  subst hok
+  have hlo : RunI.LensOk inp.fs (buildTable inp.exportDir.path (dedupTorrents (sortTorrents inp.torrents)) 0) := by
+    intro e he hpad
+    obtain ⟨e', he', s, rfl⟩ := RunI.run_table_cover H inp hne st1 hv e he
+    exact ⟨hlens { e with searches := s } he' hpad, hnotdir { e with searches := s } he' hpad⟩
+  obtain ⟨f1, f2⟩ := RunI.fixExportFileLengths_idle inp.fs _ hlo st1 e1.fs (e1.faults.trans hnofault)
+  rcases hf : fixExportFileLengths st1
+    (buildTable inp.exportDir.path (dedupTorrents (sortTorrents inp.torrents)) 0) with ⟨st2, fl⟩
+  rw [hf] at f1 f2
+  simp only at f1 f2
+  subst f1
+  have key := RunI.idle_core H inp hwf hne hnofault st1 st2 hv (by rw [hres, if_pos rfl, hf]) (e1.trans f2) hwork
+    (fun w hw => hall w hw)
+  exact ⟨key.1, key.2.1, key.2.2.1⟩
 
 end TB
